@@ -373,6 +373,7 @@ end:
 
 func (st *States) switchState(sctx switchContext) error {
 	e := util.StringError("switch state")
+	verifGate("switch:begin", st, sctx.from(), sctx.next())
 
 	current := st.current()
 	nsctx := sctx
@@ -388,6 +389,7 @@ func (st *States) switchState(sctx switchContext) error {
 	default:
 		return err
 	}
+	verifGate("switch:checked", st, nsctx.from(), nsctx.next())
 
 	l := st.stateSwitchContextLog(nsctx, current)
 
@@ -623,6 +625,7 @@ func (st *States) mimicBallotFunc() func(base.Ballot) {
 
 			return
 		}
+		verifGate("mimic:checked", st, bl)
 
 		var newbl base.Ballot
 
@@ -634,6 +637,7 @@ func (st *States) mimicBallotFunc() func(base.Ballot) {
 		default:
 			newbl = i
 		}
+		verifGate("mimic:signed", st, bl, newbl)
 
 		ll := l.With().Interface("ballot", bl).Interface("new_ballot", newbl).Logger()
 
@@ -642,6 +646,7 @@ func (st *States) mimicBallotFunc() func(base.Ballot) {
 				ll.Error().Err(err).Msg("failed to vote mimic ballot")
 			}
 		}()
+		verifGate("mimic:broadcast", st, bl, newbl)
 
 		_ = st.args.BallotBroadcaster.Broadcast(newbl)
 
